@@ -305,9 +305,14 @@ def sub_multiset(a, b):
   return all(cb[k] >= n for k, n in ca.items())
 
 
+def _srt(l):
+  return sorted(l, key=lambda v: (str(type(v)), v if isinstance(v, int) else 0, str(v)))
+
+
 def result_oracle(case, got, end, returned=None):
   """multiset equality with the sequential evaluation / all return values collected (None = fine)"""
   seq, fails = sequential(case)
+  sorted = _srt   # values delivered by a broken implementation need not be ints
   k = case.get('num_steps')
   if not sub_multiset(got, seq):
     return f'delivered {sorted(got)} is not a sub-multiset of the sequential outputs {seq} (duplicated or invented element)'
